@@ -971,7 +971,7 @@ pub fn check_c06(tier: Tier) -> i32 {
       items.push(c);
     }
   }
-  par_for_each(&items, |_, c| c06_cell(&run, c, &alphabet, if thorough { 3 } else { 2 }));
+  par_for_each(&items, |_, c| c06_cell(&run, c, &alphabet, if thorough { 4 } else { 2 }));
   // unsync::Arena performs no atomic accesses: its crash points are the operation boundaries,
   // i.e. the image left by a history that is simply abandoned (no drop, no flush)
   {
@@ -1006,8 +1006,8 @@ pub fn check_c06(tier: Tier) -> i32 {
     }
   }
   run.sample(|| json!({"cfg": "sync Optimistic file arena", "start": "full-2eq", "history": "B(7) B(16)", "crash_images": "one image before every atomic access and before the zeroing of the last operation, plus one after it", "recovery": "map_mut, cursor in range, pre-crash live ranges intact, probe workload (allocations, releases, discard_freelist) terminates under an event budget and never re-issues a live range"}));
-  run.rule("for every history of depth 2 (3) from 5 start states in 6 cells: the shared mapping is copied before every atomic access (and before the zeroing) of the last operation and after it; every image is written to a file, reopened writable and put through the recovery oracle; unsync: image at every operation boundary; evaluations = crash images recovered; states = distinct images");
-  run.set("bounds", json!({"depth": if thorough { 3 } else { 2 }, "alphabet": alphabet.iter().map(|o| o.short()).collect::<Vec<_>>(), "probe_budget_events_per_call": 600}));
+  run.rule("for every history of depth 2 (thorough: 4) from 5 start states in 6 cells: the shared mapping is copied before every atomic access (and before the zeroing) of the last operation and after it; every image is written to a file, reopened writable and put through the recovery oracle; unsync: image at every operation boundary; evaluations = crash images recovered; states = distinct images");
+  run.set("bounds", json!({"depth": if thorough { 4 } else { 2 }, "alphabet": alphabet.iter().map(|o| o.short()).collect::<Vec<_>>(), "probe_budget_events_per_call": 600}));
   run.assume("crash model: process kill with the page cache intact (no torn pages, no reordering of write-back)");
   run.finish()
 }
